@@ -152,7 +152,8 @@ impl Meta {
     // ------------------------------------------------------------------ C20
     fn c20(&self, rng: &mut Rng, ctx: &mut Ctx) {
         let mut p = gen_prog(rng, true);
-        p.number(rng.range(1, 9) as u16, 3);
+        // line 0 is a line like any other
+        p.number(if rng.chance(1, 3) { 0 } else { rng.range(1, 9) as u16 }, 3);
         let base = gen::render(&p);
         let mut a = typed_p(&p, &base);
         let (ta, sa) = cmd(&mut a, "RUN");
@@ -165,7 +166,7 @@ impl Meta {
             0 => {
                 // other numbering
                 let mut q = p.clone();
-                q.number(rng.range(0, 300) as u16, *rng.pick(&[1u16, 7, 10, 50]));
+                q.number(if rng.chance(1, 4) { 0 } else { rng.range(0, 300) as u16 }, *rng.pick(&[1u16, 7, 10, 50]));
                 (gen::render(&q), "renumbered-layout")
             }
             1 => {
@@ -264,6 +265,21 @@ impl Meta {
                 &format!("{}\n{}", base.join("\n"), d),
             );
             return;
+        }
+        // lines that compile to nothing do nothing in direct mode either, with and without a program
+        let nothing = *rng.pick(&["REM x", "'x", ":", ": :REM X", "::", "REM", " :' GOTO 1"]);
+        for (which, sess) in [("no program", &mut empty), ("the program loaded", &mut full)] {
+            let (t, _) = cmd(sess, nothing);
+            ctx.count("empty_direct_lines_run");
+            if t != "READY.\n<STOPPED>" && t != "<STOPPED>" {
+                ctx.violation(
+                    "empty-direct-line",
+                    "layout:empty-direct",
+                    &format!("the direct line {:?} (no statements) with {} gives {:?}; the one-line program `10 {}` prints nothing", nothing, which, t, nothing),
+                    &format!("{}\n{}", base.join("\n"), nothing),
+                );
+                return;
+            }
         }
         // the same list as a one-line program
         let mut one = typed(&[format!("10 {}", d)]);
